@@ -181,6 +181,11 @@ def run(ctx):
                          % (callee.split('::')[-1], ', '.join(show(a)[:40] for a in args), '; '.join(why) or 'argument NOT shown in range'), c.span,
                          key=ctx.key(b.name, 'U1', callee, ''))
 
+    # blend.rs arithmetic is not decided here, with one exception that can be: the divisions of blend::normal, which every rendered
+    # pixel passes through (seeds C05-n / C02-g / C06-l removed the exit that keeps their divisor non-zero)
+    import C17 as _c17
+    _c17.normal_divisions(ctx, 'U3')
+
     # ---------------- Half 1: inventory over USE (minus the loader cone, judged by C04, and blend.rs, not decided)
     bodies = [b for b in use if b.path not in load or b.name.startswith('asefile::cel::CelsData::')]
     inv = panics.inventory(fx, bodies)
